@@ -285,7 +285,7 @@ def main():
                 tech = tech + "; " + R13[pid]
                 text = text + " Round 13 (DESIGN §10.12) adds: " + R13[pid] + "."
                 ref = ref + ", §10.12"
-            text = text + " The thorough tier also replays the independently written behaviour-preserving refactorings of /verif/benign (DESIGN §10.8, §10.9, §10.11) and fails if one of them is reported."
+            text = text + " The thorough tier also replays the independently written behaviour-preserving refactorings of /verif/benign (DESIGN §10.8, §10.9, §10.11, §10.13) and fails if one of them is reported."
             checks.append({
                 "property_id": pid,
                 "quick_cmd": "./check %s quick" % pid,
